@@ -16,6 +16,15 @@ skip_tests = "--skip-tests" in sys.argv
 name = f"{pid}-s{k}" + (sys.argv[sys.argv.index("--suffix") + 1] if "--suffix" in sys.argv else "")
 src = f"{adv}/seeded/{k}"
 base = subprocess.run(["git", "-C", adv, "rev-parse", "HEAD"], capture_output=True, text=True).stdout.strip()
+if not os.path.isdir(src):
+    # the adversary's worktree is gone: re-evaluate from the copy kept under /verif/seeded (same patch, same demo, same base revision)
+    kept = f"/verif/seeded/{name}"
+    if not os.path.isdir(kept):
+        sys.exit(f"neither {src} nor {kept} exists")
+    src = "/tmp/evsrc-" + name
+    shutil.rmtree(src, ignore_errors=True)
+    shutil.copytree(kept, src)
+    base = json.load(open(f"{kept}/meta.json"))["base_revision"]
 wt = f"/tmp/evs-{name}"
 def sh(cmd, **kw): return subprocess.run(cmd, shell=True, capture_output=True, text=True, **kw)
 sh(f"git -C /repo worktree remove --force {wt}; rm -rf {wt}")
